@@ -187,6 +187,10 @@ func (br *BlockReader) SkipNext() (*BlockMetadata, error) {
 
 	cidSize, c, err := cid.CidFromReader(io.LimitReader(br.r, int64(sectionSize)))
 	if err != nil {
+		if err == io.EOF {
+			// The length prefix has been read, so the stream ended inside a section.
+			err = io.ErrUnexpectedEOF
+		}
 		return nil, err
 	}
 
